@@ -833,7 +833,7 @@ def main(chk):
     chk.cov["input_distribution"] = hist
     chk.cov["model_mismatches"] = len(mism)
     chk.cov["metamorphic_failures"] = len(meta_fail)
-    chk.cov["exhaustive"] = ("all 23x23 ordered infix pairs over identifiers and over 7 operand shapes (literal, call, index, grouped, prop call, -x, !x), 4 more shapes and both explicit groupings; "
+    chk.cov["exhaustive_part"] = ("all 23x23 ordered infix pairs over identifiers and over 7 operand shapes (literal, call, index, grouped, prop call, -x, !x), 4 more shapes and both explicit groupings; "
                              "prefix(5) x infix(23); if/else x 23; 3 assignment forms x 23 (14 compound operators x 23); "
                              "4 jump statements x 23 and x if; " +
                              ("all 23^3 triples" if chk.tier == "thorough" else
